@@ -17,6 +17,8 @@ import PyAbel.Model.Distributions
 import PyAbel.Model.Representations
 import PyAbel.Model.RbasexImage
 import PyAbel.Model.Polynomial
+import PyAbel.Model.Recursions
+import PyAbel.Gen.Tables
 open PyAbel PyAbel.Proto
 
 def axOfNat : Nat → Option SymAxis
@@ -306,6 +308,24 @@ def handle (toks : List String) : String :=
   | ["npy"] => "error"
   -- cache module op / op / …   →  history of the basis-cache state machine
   | "cache" :: module :: rest => cacheHistory module (splitOps rest)
+  -- hansen forward hold1 dr <row…>   →  hansenlaw_transform of one row (constants from Gen/Tables)
+  | "hansen" :: fwd :: hold :: dr :: rest =>
+    match parseBool fwd, parseBool hold, parseFloats [dr], parseFloats rest with
+    | some fwd, some hold, some dr, some xs =>
+      if xs.size < 3 then "bad-op" else
+      let h := fun k => PyAbel.Gen.hansenH.getD k 0.0
+      let lam := fun k => PyAbel.Gen.hansenLam.getD k 0.0
+      let out := HansenLaw.transform h lam PyAbel.Gen.hansenH.length fwd hold xs.size (dr.getD 0 1.0) (fun i => xs.getD i 0.0)
+      s!"ok 1 {xs.size} " ++ showFloats ((List.range xs.size).map out)
+    | _, _, _, _ => "bad-op"
+  -- direct forward corr dr <row…>   →  direct_transform (python backend) of one row
+  | "direct" :: fwd :: corr :: dr :: rest =>
+    match parseBool fwd, parseBool corr, parseFloats [dr], parseFloats rest with
+    | some fwd, some corr, some dr, some xs =>
+      if xs.size < 2 then "bad-op" else
+      let out := Direct.transform fwd corr xs.size (dr.getD 0 1.0) (fun i => xs.getD i 0.0)
+      s!"ok 1 {xs.size} " ++ showFloats ((List.range xs.size).map out)
+    | _, _, _, _ => "bad-op"
   -- mat name n   →  n×n entries of a model matrix
   | ["mat", name, n] =>
     match namedMatrix name, n.toNat? with
